@@ -66,14 +66,38 @@ CHECKS = {
         technique='metamorphic twin runs (checked vs --unchecked) on the exploring VM over the bounded-exhaustive families of C01/C02/C05/C08',
         text='Each enumerated (program, input, word size) is compiled with and without runtime checks; when the checked run raises no fault '
              'the unchecked committed trace must be identical, must not trap, and must satisfy the memory monitor.'),
+    'C06': dict(
+        level='exploration', design='6/C06',
+        technique='bounded-exhaustive enumeration of placements (construct at the bottom of every chain of context formers up to a depth bound) checked against an independent context algebra',
+        text='Every chain of <=3 (thorough: 4) statement/expression context formers in ordinary, you and defeat functions and global '
+             'initialisers, with each construct at the bottom, is parsed and typechecked by hidc; acceptance must coincide with the '
+             'verdict of a context algebra written from the README table, and rejections must be ParserErrors.',
+        note='Trusted base: the context algebra in hv/checks/c06.py (10 statement formers, 7 expression formers, 6 adapters, 13 constructs). No code is executed.'),
+    'C07': dict(
+        level='exploration', design='6/C07',
+        technique='bounded-exhaustive enumeration of typed atoms in every typed context against an independent reference typing judgement; overload binding decided by running the compiled program on the exploring VM',
+        text='84 typed atoms in every declaration/assignment/argument/return/operand/cast/condition/index context (full 84x84 operator grid in '
+             'the thorough tier), 78 scope/shape rule programs and all ordered sets of <=3 overloads; accept/reject must equal the verdict of '
+             'hv.ref.types (three-valued; undocumented corners are skipped and counted), rejections must be TypeCheckErrors, and the '
+             'overload that actually runs must be the one the documented rule selects.',
+        note='Trusted base: hv.ref.types (typing judgement written from the README) and hv.ref.parser; VM + reference interpreter for overload binding.'),
+    'C11': dict(
+        level='exploration', design='6/C11',
+        technique='exhaustive enumeration of expression trees up to a depth bound; print with minimal/full parentheses, parse with hidc, compare trees; independent precedence-climbing parser as second oracle',
+        text='All trees of depth <=2 over all operators, all operator pairs/triples in all tree shapes, depth-3 trees over one operator per '
+             'precedence level and ?? in every position are printed with minimal parentheses (README table only) and with full '
+             'parentheses; hidc must parse both back to the same tree, and the independent parser must agree.',
+        note='Trusted base: the printer hv.ref.core.pexpr and the independent parser hv.ref.parser. Parse-only.'),
+    'C12': dict(
+        level='exploration', design='6/C12',
+        technique='exhaustive enumeration of texts over token, symbol, integer-literal and escape alphabets compared token-by-token (class, value, span) with an independent maximal-munch tokenizer; re-layout metamorphic check on token and instruction streams',
+        text='Every token alone and every ordered token pair under 9 separators, all symbol strings and integer-alphabet strings up to a '
+             'length bound, every byte/character/unicode escape, and every seed program under 6 layout policies.',
+        note='Trusted base: hv.ref.lexer (written from the README token classes). Layout checks compile with hidc but execute nothing.'),
 }
 
 PENDING = {
-    'C06': 'check under construction in this round (not a claim that the technique cannot apply)',
-    'C07': 'check under construction in this round (not a claim that the technique cannot apply)',
     'C10': 'check under construction in this round (not a claim that the technique cannot apply)',
-    'C11': 'check under construction in this round (not a claim that the technique cannot apply)',
-    'C12': 'check under construction in this round (not a claim that the technique cannot apply)',
     'C13': 'check under construction in this round (not a claim that the technique cannot apply)',
     'C14': 'check under construction in this round (not a claim that the technique cannot apply)',
     'C16': 'check under construction in this round (not a claim that the technique cannot apply)',
